@@ -28,7 +28,7 @@ def avl_runs(tier):
     H = 4
     L = 4 if tier == 'quick' else 6
     covers_step = ['avl.step-insert', 'avl.step-delete', 'avl.delete-root', 'avl.delete-two-children',
-                   'avl.duplicate-insert']
+                   'avl.duplicate-insert', 'avl.reinsert-interior-node']
     return [
         {'name': 'avl_step', 'sources': ['harness/avl.c'], 'lib_tus': ['iv_avl'],
          'params': {'mode': 0, 'H': H}, 'covers': covers_step,
@@ -79,8 +79,12 @@ def c02_runs(tier):
 
 def c03_runs(tier):
     q = tier == 'quick'
-    r = per_method('reuse', [0, 1, 2, 3], ['fd.in-handler-ran', 'fd.out-handler-ran', 'fd.err-handler-ran'],
-                   K=2, R=2, acts=A_UNREG | A_REG, A=1, L=1 if q else 2, symtruth=2, patterns=2)
+    cv = ['fd.in-handler-ran', 'fd.out-handler-ran', 'fd.struct-reused-without-init']
+    # unregister + re-register (fresh struct or the same struct without IV_FD_INIT) needs two operations
+    r = per_method('reuse', [0, 3] if q else [0, 1, 2, 3], cv, K=2, R=2, acts=A_UNREG | A_REG, A=2, L=2,
+                   symtruth=1 if q else 2, patterns=2)
+    r += per_method('reuse.huperr', [1, 2] if q else [0, 1, 2, 3], cv + ['fd.err-handler-ran'], K=1, R=3,
+                    acts=A_UNREG | A_REG, A=2, L=2 if q else 3, symtruth=2, patterns=2)
     return r
 
 
@@ -274,7 +278,7 @@ def c19_runs(tier):
     h = 'harness/popen.c'
     cv = ['popen.child-reached-exec', 'popen.child-exits-at-once', 'popen.child-dies-from-signal',
           'popen.escalated-to-sigkill', 'popen.child-exits-between-signals', 'popen.complete-run',
-          'env.fork-child-copy-explored']
+          'env.fork-child-copy-explored', 'popen.time-passes-after-reaping']
     r = [mt_run('type-r.epoll', h, cv, preempt=0, read=1), mt_run('type-w.epoll', h, cv, preempt=0, read=0),
          mt_run('type-r.poll', h, cv, preempt=0, read=1, poll=1)]
     if tier != 'quick':
